@@ -14,7 +14,7 @@ changes these definitions and the proofs below are re-checked against it.
 
 The rewriting statement holds in full since the repair 77f6b99 (`rewrite_resolves_same`); the lookup
 statement is false of the real code: the trigger is a named hypothesis (`CellsShadowed`), the witness
-is `lookup_full_statement_fails` (known finding C15-cells-shadowed-by-attr).
+is `item_lookup_full_statement_fails` (known finding C15-cells-shadowed-by-attr).
 -/
 namespace MxModel.C15
 open MxModel.Export MxModel
